@@ -6,6 +6,8 @@ Installed by assigning module attributes (`mod.os = SimOS(fs)`,
 `mod.open = fs.open`); no change in /repo is needed.
 """
 import errno
+import fnmatch
+import glob as _real_glob
 import io
 import os as _real_os
 import posixpath
@@ -569,6 +571,61 @@ class _SimPath(object):
 
     def __getattr__(self, name):
         raise UnmodelledSyscall("os.path.%s" % name)
+
+
+class SimGlob(object):
+    """The `glob` module (or the function `glob.glob`) as seen by the code under test:
+    patterns are matched against the simulated tree, component by component."""
+
+    def __init__(self, fs):
+        self._fs = fs
+
+    escape = staticmethod(_real_glob.escape)
+    has_magic = staticmethod(_real_glob.has_magic)
+
+    def glob(self, pathname, *, root_dir=None, dir_fd=None, recursive=False, include_hidden=False):
+        fs = self._fs
+        pat = pathname if root_dir is None else posixpath.join(root_dir, pathname)
+        apat = fs.norm(pat)
+        fs._op("glob", apat, 0)
+        pparts = apat.strip("/").split("/")
+        found = []
+        for path in sorted(set(fs.files) | set(fs.dirs)):
+            parts = path.strip("/").split("/")
+            if path == "/" or not self._match(parts, pparts, recursive, include_hidden):
+                continue
+            found.append(path)
+        if posixpath.isabs(pathname) and root_dir is None:
+            return found
+        base = fs.norm(root_dir or ".").rstrip("/") + "/"
+        return [f[len(base):] if f.startswith(base) else f for f in found]
+
+    def iglob(self, pathname, **kwargs):
+        return iter(self.glob(pathname, **kwargs))
+
+    __call__ = glob
+
+    @staticmethod
+    def _match(parts, pparts, recursive, include_hidden):
+        if not pparts:
+            return not parts
+        head = pparts[0]
+        if recursive and head == "**":
+            return any(SimGlob._match(parts[i:], pparts[1:], recursive, include_hidden)
+                       for i in range(len(parts) + 1))
+        if not parts:
+            return False
+        if _real_glob.has_magic(head):
+            if parts[0].startswith(".") and not head.startswith(".") and not include_hidden:
+                return False
+            if not fnmatch.fnmatchcase(parts[0], head):
+                return False
+        elif parts[0] != head:
+            return False
+        return SimGlob._match(parts[1:], pparts[1:], recursive, include_hidden)
+
+    def __getattr__(self, name):
+        raise UnmodelledSyscall("glob.%s" % name)
 
 
 class SimOS(object):
